@@ -424,7 +424,7 @@ pub fn run(ctx: &Ctx, report: &mut Report) {
         report,
         PropSpec {
             name: "structured",
-            cases: ctx.tier.pick(400_000, 8_000_000),
+            cases: ctx.tier.pick(1_200_000, 12_000_000),
             max_shrink_iters: 4096,
         },
         case_strategy,
@@ -438,7 +438,7 @@ pub fn run(ctx: &Ctx, report: &mut Report) {
         report,
         PropSpec {
             name: "boundary",
-            cases: ctx.tier.pick(100_000, 2_000_000),
+            cases: ctx.tier.pick(300_000, 3_000_000),
             max_shrink_iters: 4096,
         },
         boundary_strategy,
